@@ -12,6 +12,7 @@ import time
 import xml.etree.ElementTree as ET
 
 BASE = json.load(open('/root/.vp/BASELINE.json'))
+HOOK_COMMIT = 'd74490a'
 
 
 def sh(cmd, **kw):
@@ -31,6 +32,12 @@ def main():
       # the patch was written against an earlier HEAD (before the add-only hook commit): merge it
       r = sh('git -C %s apply --3way %s' % (wt, os.path.join(d, 'patch.diff')))
       out['applied_3way'] = True
+    if r.returncode != 0:
+      # still conflicting with the hook lines: evaluate on the parent of the hook commit (fix commits only)
+      sh('git -C /repo worktree remove --force %s' % wt)
+      sh('git -C /repo worktree add -q --detach %s %s^' % (wt, HOOK_COMMIT))
+      r = sh('git -C %s apply %s' % (wt, os.path.join(d, 'patch.diff')))
+      out['applied_on_pre_hook_base'] = True
     out['applies'] = r.returncode == 0
     if not out['applies']:
       out['apply_error'] = r.stdout[-500:]
